@@ -392,7 +392,7 @@ func (g *genState) genTimeSel() *TimeSel {
 
 func (g *genState) genTrim() Op {
 	rng := g.rng
-	op := Op{A: int64(rng.Pick(25, 50, 25)), C: int64(rng.Pick(72, 16, 6, 4, 2))}
+	op := Op{A: int64(rng.Pick(25, 50, 25)), C: int64(rng.Pick(68, 15, 6, 4, 2, 3, 2))}
 	switch rng.Pick(30, 25, 20, 25) {
 	case 0:
 		op.K = "trim_off"
@@ -444,7 +444,7 @@ func (g *genState) genTrim() Op {
 
 func (g *genState) genCmp() Op {
 	rng := g.rng
-	op := Op{A: int64(rng.Pick(25, 50, 25)), C: int64(rng.Pick(75, 13, 6, 4, 2)), T: g.genTimeSel()}
+	op := Op{A: int64(rng.Pick(25, 50, 25)), C: int64(rng.Pick(71, 12, 6, 4, 2, 3, 2)), T: g.genTimeSel()}
 	if rng.Bool() {
 		op.K = "cmp_upd"
 	} else {
@@ -496,13 +496,13 @@ func (g *genState) genOp() Op {
 	case 1:
 		return Op{K: "del", Sel: g.genSel()}
 	case 2:
-		return Op{K: "delmulti", Sel: g.genSel(), A: int64(rng.Intn(2)), B: int64(rng.Pick(70, 15, 7, 5, 3))}
+		return Op{K: "delmulti", Sel: g.genSel(), A: int64(rng.Intn(2)), B: int64(rng.Pick(66, 14, 7, 4, 3, 4, 2))}
 	case 3:
 		return g.genTrim()
 	case 4:
 		return g.genCmp()
 	case 5:
-		return Op{K: "compact", A: []int64{0, 1, 1000, 1000000, 3600000000}[rng.Intn(5)], B: int64(rng.Pick(77, 13, 5, 3, 2))}
+		return Op{K: "compact", A: []int64{0, 1, 1000, 1000000, 3600000000}[rng.Intn(5)], B: int64(rng.Pick(73, 12, 5, 3, 2, 3, 2))}
 	case 6:
 		return Op{K: "gc", A: []int64{0, 0, 1000000, 3600000000}[rng.Intn(4)]}
 	case 7:
